@@ -416,9 +416,73 @@ def case(spec):
         return out
 
 
+
+def division_case(spec):
+    """patch size given as a side divided by a whole number (p = side / k, the way a user asks for k patches):
+    side / p sits on an integer in float arithmetic.  The exact-floor oracle is not applied here (the float
+    quotient decides); the two engines, the count function and the model must still agree with each other."""
+    from sparrowpy import geometry as g
+    from sparrowpy.classes.RadiosityKang import PatchesKang
+    rng = np.random.default_rng([spec["seed"], 70000 + spec["idx"]])
+    out = {"evaluations": 1, "mismatches": [], "prop_failures": [], "dist": {"division_case": 1}, "nontrivial": []}
+    f = int(rng.integers(0, 3))
+    sx = float(np.round(rng.uniform(0.3, 6.5), int(rng.integers(1, 3))))
+    sy = float(np.round(rng.uniform(0.3, 6.5), int(rng.integers(1, 3))))
+    k = int(rng.integers(1, 13))
+    p = (sx if rng.random() < 0.5 else sy) / k
+    if p > min(sx, sy):
+        p = min(sx, sy) / k
+    off = [float(np.round(x, 2)) for x in rng.uniform(-10, 10, 3)] if rng.random() < 0.5 else [0.0, 0.0, 0.0]
+    w = dict(f=f, c=off[0], xl=off[1], xh=off[1] + sx, yl=off[2], yh=off[2] + sy)
+    tag = dict(seed=spec["seed"], idx=spec["idx"], division=True, wall=w, patch_size=p, k=k)
+    out["sample"] = tag
+    base = wall_pts(w)
+    o = int(rng.integers(0, 8))
+    pts = reorder(base, o)
+    try:
+        fast = g._create_patches(pts.copy(), p)
+        tot = int(g._total_number_of_patches(pts.copy(), p))
+        pk = PatchesKang(g.Polygon(pts.copy(), up_of(f), normal_of(f, 1.0)), p, [], 0)
+        kang = np.array([q.pts for q in pk.patches]).reshape(-1, 4, 3)
+    except Exception as exc:   # noqa: BLE001
+        out["prop_failures"].append(dict(test="raises", case=tag, what="the implementation raised %s: %s on a valid wall"
+                                         % (type(exc).__name__, exc)))
+        return out
+    res = run_driver(Tok().cmd("q_tiling").vec(pts.reshape(-1)).f(p).cmd("q_kang").vec(pts.reshape(-1)).f(p))
+    meta = ints(res[0][1]); mpts = floats(res[1][1], (-1, 4, 3))
+    kmeta = ints(res[2][1])
+    for stage, m in (("_total_number_of_patches (p = side/k)", cmp_exact(tot, meta[1], "total")),
+                     ("len(_create_patches) (p = side/k)", cmp_exact(fast.shape[0], meta[2], "count")),
+                     ("len(PatchesKang.patches) (p = side/k)", cmp_exact(kang.shape[0], kmeta[0], "count"))):
+        if m:
+            out["mismatches"].append(dict(stage=stage, what=m, case=tag))
+    if fast.shape[0] == meta[2]:
+        m = cmp_float(fast, mpts, what="_create_patches (p = side/k)")
+        if m:
+            out["mismatches"].append(dict(stage="_create_patches (p = side/k)", what=m, case=tag))
+    if fast.shape[0] != kang.shape[0] or tot != fast.shape[0]:
+        out["prop_failures"].append(dict(
+            test="fast_eq_kang_division", case=tag,
+            what="wall %.6g x %.6g with patch size side/%d = %r: the fast engine makes %d patches (count function: %d), "
+                 "the Kang engine %d" % (sx, sy, k, p, fast.shape[0], tot, kang.shape[0])))
+    else:
+        ca = np.sort(np.round(fast.reshape(-1, 12), 9), axis=0)
+        cb = np.sort(np.round(kang.reshape(-1, 12), 9), axis=0)
+        a_cent = np.sort(np.round(fast.mean(axis=1), 9), axis=0)
+        b_cent = np.sort(np.round(kang.mean(axis=1), 9), axis=0)
+        if not np.allclose(a_cent, b_cent, rtol=0, atol=1e-8):
+            out["prop_failures"].append(dict(test="fast_eq_kang_division", case=tag,
+                                             what="same patch count but different patch centres in the two engines"))
+    if fast.shape[0] >= 2:
+        out["nontrivial"].append(case_hash(tag))
+    return out
+
+
 def run(res):
     n = 96 if res.tier == "quick" else 1920
     for r in fw.run_parallel(case, [dict(seed=res.seed, idx=i) for i in range(n)]):
+        res.absorb(r)
+    for r in fw.run_parallel(division_case, [dict(seed=res.seed, idx=i) for i in range(60 if res.tier == "quick" else 1500)]):
         res.absorb(r)
     res.rule = ("one case = an axis-aligned rectangle (3 coordinate planes in turn, random offset) in all 8 vertex "
                 "orders (4 rotations x 2 directions) with a patch size between side and side/12, plus a list of "
@@ -435,8 +499,11 @@ def replay(res, payload):
     seen = set()
     for fl in payload.get("failures", []) + payload.get("correspondence", []):
         c = fl.get("case", {})
-        key = (c.get("seed"), c.get("idx"))
+        key = (c.get("seed"), c.get("idx"), bool(c.get("division")))
         if key in seen or c.get("idx") is None:
             continue
         seen.add(key)
+        if c.get("division"):
+            res.absorb(fw.run_parallel(division_case, [dict(seed=c["seed"], idx=c["idx"])])[0])
+            continue
         res.absorb(case(dict(seed=c["seed"], idx=c["idx"])))
